@@ -28,7 +28,7 @@ cotengra/interface.py and / or with arguments that must not change the value, an
 numpy.einsum over the FULL operand list in the original positions:
 
   routes     einsum_expression / array_contract_expression built from shapes (given as tuples, lists, numpy
-             integers, or size_dict), with ``constants=`` naming 0, some, or all-but-one operands (list / tuple /
+             integers, or size_dict), with ``constants=`` naming 0, some, all-but-one or ALL operands (list / tuple /
              set of positions resp. {position: array}); the expression object is then called 1-3 times, every
              call with NEW variable arrays (monitor expr_recall_new_arrays; constants folded when the
              expression is built, by partial contraction whenever the tree joins two constants);
@@ -51,9 +51,13 @@ A user-registered preset must behave like the function registered under its name
 routes the intermediates of the returned path / tree must be those of the path the function returns
 (user_preset_model; the three functions return fixed path families that depend on the number of operands only),
 and whenever no cache can stand in and the front end does not pre-empt the choice the function must really
-have been called (user_preset_consulted).  Classes not generated because the unchanged library fails on them
-are marked PENDING-FINDING in the generator (FINDINGS_widen-c.md: all operands constant; one-operand identity
-with an empty constants set; one-operand trees; the empty explicit path).
+have been called (user_preset_consulted).  The four classes the library used to fail on (FINDINGS_widen-c.md
+F1-F4, repaired in cf6fb6b / df9c948 / f2a0970) are generated and counted by their own monitors: ALL operands
+constant - the expression is called without arguments, 1-3 times (expr_all_constants); a one-operand call that
+returns its operand unchanged, built with an EMPTY constants set (identity_empty_constants); one-operand calls
+through einsum_tree / array_contract_tree + tree.contract (one_operand_tree); the empty explicit path () / [] as
+``optimize`` of a one-operand call (empty_explicit_path) and the empty path that array_contract_path returns
+(one operand; an edge path that joins nothing) fed back as ``optimize`` (empty_path_fed_back).
 
 ``classify`` recognises mechanisms by *differential confirmation*: a violation gets a key only if
 exactly one "repair" of the call is applicable and makes the very same oracle pass:
@@ -98,7 +102,7 @@ RULE = (
     "with 27-52 distinct symbols from a-zA-Z; "
     "plus, once per 4 cases (own seed stream), a call of the same grammars (without size-1 broadcasting) sent through a "
     "front-end route: einsum_expression / array_contract_expression from shapes with constants = none / empty / some / "
-    "all-but-one operands and 1-3 calls with new variable arrays, einsum_tree / array_contract_tree from shapes + "
+    "all-but-one / all operands and 1-3 calls with new variable arrays (none to pass when all are constant), einsum_tree / array_contract_tree from shapes + "
     "tree.contract, array_contract_path fed back as optimize, or the direct call; optimize drawn from built-in presets, "
     "3 user-registered presets, explicit / edge paths, a (sliced) ContractionTree of the same call, optimizer objects; "
     "options via (scaling conversions), backend, implementation, prefer_einsum, autojit, sort_contraction_indices, "
@@ -148,6 +152,11 @@ REQUIRED_MONITORS = [
     "optimize_object",
     "sliced_tree_as_optimize",
     "explicit_path",
+    "expr_all_constants",
+    "identity_empty_constants",
+    "one_operand_tree",
+    "empty_explicit_path",
+    "empty_path_fed_back",
 ]
 SHARD_TIMEOUT = {"quick": 400, "thorough": 3600}
 
@@ -1500,6 +1509,12 @@ def fe_monitors(case):
     mons = [FE_ROUTE_MON[fe["route"]]]
     if fe.get("constants") is not None:
         mons.append("expr_constants")
+        if len(fe["constants"]) == len(case["shapes"]):
+            mons.append("expr_all_constants")
+        if fe.get("identity_empty_constants"):
+            mons.append("identity_empty_constants")
+    if fe["route"] in ("einsum_tree", "tree") and len(case["shapes"]) == 1:
+        mons.append("one_operand_tree")
     kw = fe.get("kw") or {}
     if kw.get("via"):
         mons.append("via_conversion")
@@ -1516,6 +1531,8 @@ def fe_monitors(case):
         mons.append("optimize_object")
     elif k in ("explicit", "edge"):
         mons.append("explicit_path")
+        if k == "explicit" and len(fe["opt"][1]) == 0:
+            mons.append("empty_explicit_path")
     return mons
 
 
@@ -1675,10 +1692,9 @@ def fe_build(ctg, case, arrays, obs):
     if route == "path":
         path = ctg.array_contract_path(inputs, output, cache=cache, **dict(okw, **canon, **how))
         obs["path"] = path
-        # PENDING-FINDING (FINDINGS_widen-c.md, F4): an EMPTY path (one operand; an edge path that joins nothing) raises
-        # IndexError when passed as ``optimize``: until that is repaired it is not fed back (the default is used)
-        back = {"optimize": path} if len(path) else {}
-        return lambda arrs: ctg.array_contract(arrs, inputs, output, **back)
+        # (also the EMPTY path - one operand; an edge path that joins nothing - is fed back: FINDINGS_widen-c.md F4)
+        obs["empty_path_fed_back"] = len(path) == 0
+        return lambda arrs: ctg.array_contract(arrs, inputs, output, optimize=path)
     raise ValueError(route)
 
 
@@ -1778,6 +1794,8 @@ def execute_fe(rep, case):
             rep.mon(m)
         if obs.get("sliced"):
             rep.mon("sliced_tree_as_optimize")
+        if obs.get("empty_path_fed_back"):
+            rep.mon("empty_path_fed_back")
         res = fe_judge(rep, mon, case, got, want, bound, n)
         if res:
             return res
@@ -1890,10 +1908,6 @@ def gen_fe_case(rng, cs, tier):
         case = gen_ncon_case(rng, cs, tier)
         route = "ncon"
     n = len(case["shapes"])
-    if n == 1 and route in ("einsum_tree", "tree"):
-        # PENDING-FINDING (FINDINGS_widen-c.md, F3): einsum_tree / array_contract_tree(...).contract([x]) on ONE operand
-        # raises UnboundLocalError; one-operand calls are not sent through the tree routes until that is repaired
-        route = "einsum_expression" if route == "einsum_tree" else "expression"
     identity = n == 1 and _maybe_identity(case)
     case["expanded"] = None
     fe = {"route": route, "constants": None, "ncalls": 1, "kw": {}, "backend": None, "canonicalize": None}
@@ -1904,14 +1918,10 @@ def gen_fe_case(rng, cs, tier):
     if route in FE_EXPR_ROUTES:
         ccls = _wchoice(rng, [("none", 2), ("empty", 1), ("some", 4), ("all-but-one", 3), ("all", 1)])
         if ccls == "all" or (ccls == "some" and n == 1):
-            # PENDING-FINDING (FINDINGS_widen-c.md, F1): an expression whose operands are ALL constant raises
-            # AttributeError when it is built; the class is not generated until that is repaired
-            ccls = "all-but-one"
-        if (ccls == "empty" or (ccls == "all-but-one" and n == 1)) and identity:
-            # PENDING-FINDING (FINDINGS_widen-c.md, F2): a one-operand expression that returns its operand unchanged,
-            # built with an EMPTY set of constants, raises KeyError when called; not generated until that is repaired
-            consts, ccls = None, "none"
+            # every operand constant: the expression is called without arguments (FINDINGS_widen-c.md F1)
+            consts, ccls = list(range(n)), "all"
         elif ccls == "empty" or (ccls == "all-but-one" and n == 1):
+            # (for one operand returned unchanged this was FINDINGS_widen-c.md F2)
             consts, ccls = [], "empty"
         elif ccls == "some":
             consts = sorted(rng.sample(range(n), rng.randint(1, n - 1)))
@@ -1923,6 +1933,7 @@ def gen_fe_case(rng, cs, tier):
         fe["const_container"] = rng.choice(["list", "list", "tuple", "set"])
         fe["ncalls"] = _wchoice(rng, [(1, 2), (2, 4), (3, 2)])
     fe["const_class"] = ccls
+    fe["identity_empty_constants"] = bool(identity and fe["constants"] == [])
 
     # ---- canonicalize --------------------------------------------------------------------
     if route == "einsum_tree":
@@ -1943,10 +1954,6 @@ def gen_fe_case(rng, cs, tier):
     if edge:
         kinds.append(("edge", 2))
     kind = _wchoice(rng, kinds)
-    if kind == "explicit" and n == 1:
-        # PENDING-FINDING (FINDINGS_widen-c.md, F4): the only explicit path of a one-operand call, the empty one (which
-        # is what array_contract_path returns for it), raises IndexError as ``optimize``; not generated until repaired
-        kind = "preset"
     if kind == "preset":
         opt = ["preset", rng.choice(FE_PRESETS)]
     elif kind == "user":
